@@ -11,6 +11,8 @@ R5.4  text/binary bodies are not JSON-decoded: every function that emits `respon
       type first excludes str/bytes
 R5.5  no-content => None on the primary and the secondary path
 R5.7  the SSE runtime decoder itself: accumulator typestate and field parsing                 [rules shared with C18]
+R5.12 each branch of the multi-media-type decode chain accepts exactly its declared media type (equality, no widening)
+R5.11 the streaming body yields raw bytes exactly when the strategy's return type (the annotated item type) is bytes
 R5.9  the handler's "is the named schema a type alias?" tests exclude what ModelVisitor's classification excludes (enums are classes)
 R5.8  every declared media type of a response passes the streaming classification in the loader
 R5.6  streaming: the handler delegates chunks/events to the runtime decoders unchanged (decoders themselves: C18)
@@ -18,6 +20,7 @@ R5.6  streaming: the handler delegates chunks/events to the runtime decoders unc
 from __future__ import annotations
 
 import ast
+import re
 from typing import Dict, List, Optional, Set, Tuple
 
 from rules._siblings import priority_signature
@@ -205,6 +208,7 @@ def run(repo: Repo, rep: Report, tier: str) -> None:
     _streaming_runtime(repo, rep)
     _stream_classification(repo, rep)
     _alias_classification(repo, rep)
+    rule_media_type_branches_exact(repo, rep, "R5.12")
 
     # ---------------------------------------------------------------- R5.6 streaming delegation
     wsr = hmod.classes["EndpointResponseHandlerGenerator"].methods["_write_strategy_based_return"]
@@ -272,6 +276,32 @@ def run(repo: Repo, rep: Report, tier: str) -> None:
             rep.error(f"R5.6: cannot evaluate the streaming templates of {wsr.qualname}: a `yield`/`async for` line is built from values this rule cannot enumerate")
         else:
             rep.violation("R5.6", sub, f"{wsr.fq}|streaming|{helper}", "the streaming template no longer yields every item of the runtime decoder unchanged", wsr.loc())
+
+    # ---------------------------------------------------------------- R5.11 the iterator matches the annotated item type
+    # The signature of a streaming method is `AsyncIterator[<item>]` with the item type taken from strategy.return_type.  The body
+    # yields raw chunks (iter_bytes) or parsed events; which of the two is emitted must be decided from that same return type - a choice
+    # re-derived from the response's media types can disagree with the annotation (a `format: binary` download under another media type).
+    cfg11 = CFG(fw.node)
+    dom11 = cfg11.dominators()
+    n11 = 0
+    for nd in cfg11.nodes:
+        if nd.kind != "stmt" or nd.ast is None or nd.copy:
+            continue
+        # the statement where the text `iter_bytes` is chosen: the emit itself, or the assignment of the helper name it is built from
+        lits = [k for k in ast.walk(nd.ast) if isinstance(k, ast.Constant) and isinstance(k.value, str) and "iter_bytes" in k.value]
+        for c in lits[:1]:
+            n11 += 1
+            sub = f"{wsr.module.relpath}:_write_strategy_based_return choice of `iter_bytes`"
+            gts = [(g, pol) for g, pol in guards(cfg11, nd.id, dom11) if g.kind == "test" and pol is not None]
+            by_type = [g for g, pol in gts if pol is True and "return_type" in norm(WL.inline(g.ast, stop=tuple(WL.params))) and "bytes" in norm(WL.inline(g.ast, stop=tuple(WL.params)))]
+            if by_type:
+                rep.ok("R5.11", sub, f"emitted under `{norm(by_type[0].ast)[:60]}`: the byte iterator is chosen exactly when the annotated item type is bytes", wsr.loc(c))
+            else:
+                shown = [("" if pol else "not ") + norm(g.ast)[:50] for g, pol in gts]
+                rep.violation("R5.11", sub, f"{wsr.fq}|iterator-not-by-return-type",
+                              f"the raw-bytes iterator is emitted under {shown}, which does not read the strategy's return type: the body can yield parsed events where the "
+                              "signature promises `AsyncIterator[bytes]` (or the reverse) - a binary download is fed to the SSE/JSON decoder", wsr.loc(c))
+    rep.require(n11 >= 1, "R5.11: no emit of `iter_bytes(` found in _write_strategy_based_return (anchor)")
 
 
 def _streaming_runtime(repo: Repo, rep: Report) -> None:
@@ -581,3 +611,54 @@ class _Relabel:
 
     def count(self, *a, **k):
         pass
+
+
+# ------------------------------------------------------------------------------------------------ R5.12 one media type per branch
+def rule_media_type_branches_exact(repo: Repo, rep: Report, rule: str = "R5.12") -> None:
+    """A response that declares several media types is decoded by an `if content_type == "<type>": ... elif ...` chain with one branch
+    per declared type (the last one doubles as the fallback).  Each branch decodes into the model of *its* media type, so its condition
+    must accept exactly that type: an equality with the declared literal.  A condition widened by `or`, `endswith`, `startswith`, `in`
+    captures answers of a sibling media type (application/geo+json under application/json) and structures them as the wrong model."""
+    hmod = repo.module(HANDLER)
+    fn = hmod.classes["EndpointResponseHandlerGenerator"].methods.get("_write_content_type_conditional_handling")
+    if fn is None:
+        raise AnalysisError(f"{rule}: anchor vanished: _write_content_type_conditional_handling")
+    defs: Dict[str, List[ast.AST]] = {}
+    for x in ast.walk(fn.node):
+        if isinstance(x, ast.Assign) and len(x.targets) == 1 and isinstance(x.targets[0], ast.Name):
+            defs.setdefault(x.targets[0].id, []).append(x.value)
+        elif isinstance(x, ast.AugAssign) and isinstance(x.target, ast.Name):
+            defs.setdefault(x.target.id, []).append(x.value)
+
+    def consts(e: ast.AST, seen: Set[str]) -> List[str]:
+        out: List[str] = []
+        for n_ in ast.walk(e):
+            if isinstance(n_, ast.Constant) and isinstance(n_.value, str):
+                out.append(n_.value)
+            elif isinstance(n_, ast.Name) and n_.id in defs and n_.id not in seen:
+                seen.add(n_.id)
+                for v in defs[n_.id]:
+                    # the literal of the media type itself (json.dumps(...)) is data, not condition syntax
+                    if isinstance(v, ast.Call) and dotted(v.func) in ("json.dumps", "repr"):
+                        continue
+                    out += consts(v, seen)
+        return out
+
+    n = 0
+    for c in calls_in(fn.node):
+        if not (isinstance(c.func, ast.Attribute) and c.func.attr == "write_line" and c.args):
+            continue
+        cs = consts(c.args[0], set())
+        text = " ".join(cs)
+        if not any(re.match(r"\s*(if|elif)\b", k) for k in cs) or "content_type" not in text:
+            continue
+        n += 1
+        sub = f"{hmod.relpath}:_write_content_type_conditional_handling branch condition `{norm(c.args[0])[:50]}`"
+        widened = [tok for tok in (" or ", "endswith", "startswith", " in ", "!=", " not ", "lower(", "split(") if tok in text]
+        if "==" in text and not widened:
+            rep.ok(rule, sub, "an equality of the answer's content type with the declared media type literal", fn.loc(c))
+        else:
+            rep.violation(rule, sub, f"{fn.fq}|branch-condition-widened|{(widened or ['no =='])[0].strip()}",
+                          f"the condition of a media type's branch is more than an equality with the declared type ({[w.strip() for w in widened] or 'no =='}): an answer sent with "
+                          "another declared media type can be caught by this branch and decoded as the wrong model", fn.loc(c))
+    rep.require(n >= 1, f"{rule}: no `if/elif content_type ...` template found in _write_content_type_conditional_handling (anchor)")
